@@ -81,6 +81,7 @@ class RefDRAM:
         self.pending_rd = []                          # [due_cycle, base, [wobj...], loc]
         self.inflight_w = {}                          # loc -> [wobj] (command issued, data not arrived)
         self.slack = {}                               # rule -> min observed (delta - need)
+        self.close = set()                            # rules for which a pair within 2x the minimum was seen
         self.touched = set()
         self.nrd = self.nwr = 0
         self.ignore_cs = ignore_cs
@@ -101,6 +102,8 @@ class RefDRAM:
         prev = self.slack.get(rule)
         if prev is None or s < prev:
             self.slack[rule] = s
+        if delta <= 2 * need:
+            self.close.add(rule + ("/PREA" if kw.get("all") else "") + ("/REF" if kw.get("cmd") in ("REF", "ZQC") and rule == "tRP" else ""))
         if s < 0:
             self.find("C03." + rule, t_now, t_from=t_from, delta=delta, need=str(need), **kw)
 
